@@ -1,0 +1,24 @@
+//go:build verif
+
+package cache
+
+// CleanForVerif runs one pass of the background cleaner synchronously and returns the total it reports.
+func (cache *dirCache) CleanForVerif(highWaterMark, lowWaterMark uint64) uint64 {
+	return cache.clean(highWaterMark, lowWaterMark)
+}
+
+// ShouldCleanForVerif exposes the entry-name recognition used by the cleaner.
+func (cache *dirCache) ShouldCleanForVerif(name string, isDir bool) bool {
+	return cache.shouldClean(name, isDir)
+}
+
+// MarkedForVerif returns a copy of the set of paths protected from cleaning, with their recorded sizes.
+func (cache *dirCache) MarkedForVerif() map[string]uint64 {
+	cache.mutex.Lock()
+	defer cache.mutex.Unlock()
+	out := make(map[string]uint64, len(cache.added))
+	for k, v := range cache.added {
+		out[k] = v
+	}
+	return out
+}
